@@ -394,6 +394,7 @@ fn entry_case(ctx: &mut Ctx, case: u64, rng: &mut Rng) {
         }
         let b = postcard::to_stdvec(e).unwrap();
         ctx.nontrivial(h64(&b));
+        ctx.eval();
         // every truncation, single-byte corruption, identifier lengths 0..70
         for cut in 0..b.len() {
             if !touch_entry_bytes(ctx, case, &b[..cut]) {
@@ -450,6 +451,7 @@ fn message_case(ctx: &mut Ctx, case: u64, rng: &mut Rng, scratch: &Scratch) {
             }
         }
         ctx.nontrivial(h64(body));
+        ctx.eval();
         let lim = body.len().min(if ctx.is_quick() { 200 } else { 1200 });
         for i in 0..lim {
             let mut c = body.to_vec();
@@ -494,6 +496,7 @@ fn heads_ticket_case(ctx: &mut Ctx, case: u64, rng: &mut Rng) {
     }
     let enc = h.encode(None).unwrap();
     ctx.nontrivial(h64(&enc));
+            ctx.eval();
     match guard(ctx, case, "author-heads-decoder", &enc, || AuthorHeads::decode(&enc)) {
         Some(Ok(d)) if d == h => {}
         Some(other) => {
